@@ -48,7 +48,7 @@ import (
 
 func cases(tier string) int {
 	if tier == "thorough" {
-		return 45000
+		return 120000
 	}
 	return 960
 }
@@ -120,6 +120,7 @@ type evidence struct {
 	writeErrs, readErrs                                         int64
 	switches                                                    int64
 	maxInFlight                                                 int64
+	overlapSend, maxDuring                                      int64
 	mustNotNever, mustNotOutside, mustNotUnbound, mustNotNoSSRC int64
 }
 
@@ -467,7 +468,8 @@ func run(c *vf.Case) {
 		sc.endStep()
 		sc.endRound()
 		if !sc.closed {
-			sc.closeAll()
+			sc.closeAll() // cleanup only
+			sc.ev.closes--
 		}
 	}, nil)
 	sc.finish()
@@ -521,6 +523,8 @@ func (sc *scn) finish() {
 	}
 	c.Max("max_sends_in_one_case", e.sends)
 	c.Max("max_held_at_once", e.maxInFlight)
+	c.Add("retransmissions_whose_downstream_write_overlapped_a_send", e.overlapSend)
+	c.Max("max_sends_completed_during_one_downstream_write", e.maxDuring)
 	if evicted >= 1 && e.retx >= 1 && e.reqMustNot >= 1 {
 		sc.fp.Int(int(sc.size))
 		c.Nontrivial(sc.fp.Sum())
@@ -579,7 +583,8 @@ func (sc *scn) runSequential() {
 		case p < 90:
 			sc.seqNack()
 		case p < 93:
-			if in := sc.pickInst(true); in != nil && len(sc.live()) > 0 {
+			// unbinding the only live stream early would leave nothing to observe
+			if in := sc.pickInst(true); in != nil && (len(sc.live()) >= 2 || op > 2*nOps/3) {
 				sc.unbind(in)
 				in.gone = true
 				sc.tracef("unbind inst#%d", in.id)
